@@ -2098,6 +2098,38 @@ Proof.
   intros E H; inversion E; subst. cbn. eapply decide_names; eauto. eapply cleanup2_names; eauto.
 Qed.
 
+Lemma cleanup3_names : forall spec st srv lister jobs st' jobs' hd upd,
+  cleanup3 spec st srv lister jobs = (st', jobs', hd, upd) -> names_unique jobs -> names_unique jobs'.
+Proof.
+  intros until upd. unfold cleanup3, process_finished.
+  destruct (fold_left pf_step (mine_of lister) (st, false, [], [])) as [[[st1 upd1] succ] failed].
+  destruct (c_fail_limit spec), (c_succ_limit spec);
+    try (destruct (remove_oldest succ _ st1 jobs [] upd1) as [[[st2 jobs2] dels2] upd2] eqn:E1;
+         destruct (remove_oldest failed _ st2 jobs2 dels2 upd2) as [[[st3 jobs3] dels3] upd3] eqn:E2;
+         destruct (switched (mine_of lister) (st_active st3) srv);
+         [destruct (clean_stale lister (mine_of lister) srv)|destruct (clean_stale lister (mine_of lister) (st_active st3))];
+         intros E H; inversion E; subst;
+         (eapply remove_oldest_names; [exact E2|]; eapply remove_oldest_names; eauto)).
+  destruct (switched (mine_of lister) (st_active st1) srv);
+    [destruct (clean_stale lister (mine_of lister) srv)|destruct (clean_stale lister (mine_of lister) (st_active st1))];
+    intros E H; inversion E; subst; auto.
+Qed.
+
+Lemma reconcile_lag_names : forall next lenient fuel s st_in lister ok now fc s' o,
+  reconcile_lag next lenient fuel s st_in lister ok now fc = (s', o) ->
+  names_unique (s_jobs s) -> names_unique (s_jobs s').
+Proof.
+  intros until o. unfold reconcile_lag.
+  destruct (cleanup3 (s_spec s) st_in (st_active (s_status s)) lister (s_jobs s)) as [[[st1 jobs1] hd] upd1] eqn:EC.
+  destruct (decide next lenient fuel (s_spec s) st1 jobs1 (s_next_uid s) now fc upd1 hd)
+    as [[[st2 jobs2] uid2] o2] eqn:ED.
+  intros E H; inversion E; subst. cbn. eapply decide_names; eauto. eapply cleanup3_names; eauto.
+Qed.
+
+(* with the lister showing the server's jobs, the lagged clean-up is the one above *)
+Lemma cleanup3_same : forall spec st srv jobs, cleanup3 spec st srv jobs jobs = cleanup2 spec st srv jobs.
+Proof. reflexivity. Qed.
+
 Lemma reconcile_names : forall next lenient fuel s now fc s' o,
   reconcile next lenient fuel s now fc = (s', o) ->
   names_unique (s_jobs s) -> names_unique (s_jobs s').
@@ -2121,7 +2153,7 @@ Proof.
   - destruct (step2 next lenient fuel s op) as [s1 out] eqn:ES.
     destruct (run2 next lenient fuel s1 r) as [s2 outs2] eqn:ER.
     intros E H; inversion E; subst. eapply IH; [exact ER|]. clear IH ER E.
-    destruct op as [o|st_in ok now fc|now fc]; cbn [step2] in ES.
+    destruct op as [o|st_in lister ok now fc|st_in ok now fc|now fc]; cbn [step2] in ES.
     + destruct o; cbn [step] in ES.
       * destruct (reconcile next lenient fuel s now fail_create) as [sx rx] eqn:E1. inversion ES; subst.
         eapply reconcile_names; eauto.
@@ -2134,6 +2166,8 @@ Proof.
       * inversion ES; subst; auto.
       * inversion ES; subst; auto.
       * inversion ES; subst; auto.
+    + destruct (reconcile_lag next lenient fuel s _ lister ok now fc) as [sx rx] eqn:E1. inversion ES; subst.
+      eapply reconcile_lag_names; eauto.
     + destruct (reconcile_from next lenient fuel s st_in ok now fc) as [sx rx] eqn:E1. inversion ES; subst.
       eapply reconcile_from_names; eauto.
     + destruct (reconcile_from next lenient fuel s (s_status s) false now fc) as [sx rx] eqn:E1. inversion ES; subst.
@@ -2244,14 +2278,11 @@ Lemma law_reconcile_sound : forall tbl o, law_reconcile tbl o = true ->
      earliest_time (c_created (b_spec o)) (b_last o) (c_deadline (b_spec o)) (b_now o) true < t /\
      t <= b_now o /\ (forall p, In p tbl -> t < p -> b_now o < p) /\
      nm = job_name_of t /\ last_lt (b_last o) t) /\
-  (c_policy (b_spec o) = Forbid -> b_creates o <> [] ->
-   forall r j, In r (b_active o) -> find_job (b_jobs o) (r_name r) = Some j -> j_uid j = r_uid r ->
-               finished (j_phase j) = true) /\
   law_adoption o = true.
 Proof.
   intros tbl o H. unfold law_reconcile in H. rewrite !andb_true_iff in H.
-  destruct H as ((((((((L1 & L2) & L3) & L4) & L5) & L6) & L7) & L8) & L9).
-  split; [|split; [|split; [|split; [|split]]]]; auto.
+  destruct H as ((((L1 & L2) & L3) & L4) & L9).
+  split; [|split; [|split; [|split]]]; auto.
   - intros Hs. rewrite Hs in L1. destruct (b_creates o); [reflexivity|discriminate].
   - intros Hs. rewrite Hs in L2. destruct (b_creates o); [reflexivity|discriminate].
   - apply Nat.leb_le. assumption.
@@ -2261,10 +2292,38 @@ Proof.
     repeat split; auto.
     + apply Z.eqb_eq in A2. exact A2.
     + unfold last_lt. destruct (b_last o); [lia|exact I].
-  - intros HF Hc r j Hr Hf Hid. rewrite HF in L5. destruct (b_creates o) as [|[nm t] l]; [contradiction|].
-    apply andb_prop in L5. destruct L5 as [L5 _]. rewrite forallb_forall in L5. specialize (L5 r Hr).
-    rewrite Hf in L5. apply orb_prop in L5. destruct L5 as [L5|L5]; [|exact L5].
-    rewrite Hid, Z.eqb_refl in L5. discriminate.
+Qed.
+
+(* law 123: a Delete issued without fetching the job hits a finished run of this CronJob *)
+Lemma law_deletes_sound : forall o nm, law_deletes o = true -> In (nm, false) (b_deletes o) ->
+  forall j, find_job (b_jobs o) nm = Some j -> j_owner j = OwnThis /\ finished (j_phase j) = true.
+Proof.
+  intros o nm H Hin j Hf. unfold law_deletes in H. apply andb_prop in H. destruct H as [H _].
+  rewrite forallb_forall in H. specialize (H _ Hin). cbn beta iota in H. rewrite Hf in H.
+  destruct (j_owner j), (j_phase j); try discriminate; auto.
+Qed.
+
+(* law 122, Forbid in the live-run form on the API server's jobs *)
+Lemma law_forbid_live_sound : forall o, law_forbid_live o = true ->
+  c_policy (b_spec o) = Forbid -> b_creates o <> [] ->
+  (forall j, In j (b_jobs o) -> j_owner j = OwnThis -> finished (j_phase j) = false ->
+             In (j_uid j) (b_known o) -> In (j_name j) (map fst (b_deletes o))) /\
+  (forall r j, In r (b_active o) -> find_job (b_jobs o) (r_name r) = Some j -> j_uid j = r_uid r ->
+               finished (j_phase j) = true \/ In (r_name r) (map fst (b_deletes o))).
+Proof.
+  intros o L10 HF Hc. unfold law_forbid_live in L10. rewrite HF in L10.
+  destruct (b_creates o) as [|[nm t] l]; [contradiction|].
+  rewrite !andb_true_iff in L10. destruct L10 as ((A & B) & _). split.
+  - intros j Hj Ho Hu Hk.
+    destruct (mem (j_name j) (map fst (b_deletes o))) eqn:Ed; [apply mem_In; exact Ed|].
+    exfalso. assert (Hin : In j (live_known o)).
+    { unfold live_known. apply filter_In. split; auto. rewrite Ho, Hu, Ed. cbn.
+      apply mem_In in Hk. rewrite Hk. reflexivity. }
+    destruct (live_known o); [destruct Hin|discriminate].
+  - intros r j Hr Hf Hid. rewrite forallb_forall in B. specialize (B r Hr).
+    rewrite Hf in B. apply orb_prop in B. destruct B as [B|B]; [|right; apply mem_In; exact B].
+    apply orb_prop in B. destruct B as [B|B]; [|left; exact B].
+    rewrite Hid, Z.eqb_refl in B. discriminate.
 Qed.
 
 (* law 121, adoption clause: an AlreadyExists on an unfinished job of this
@@ -2316,3 +2375,112 @@ Theorem gc_uid_is_the_fresh_copys : forall lj fresh now1 now2 u,
   let relabel (j : gjob) := mkGjob u (g_phase j) (g_ttl j) (g_deleting j) (g_finish j) (g_created j) in
   process_job (option_map relabel lj) fresh now1 now2 = process_job lj fresh now1 now2.
 Proof. intros [j|] fresh now1 now2 u; reflexivity. Qed.
+
+(* ------------------------------------------------------------------ *)
+(* Forbid is NOT kept once the controller's view is stale                *)
+(* ------------------------------------------------------------------ *)
+
+Definition live_owned (jobs : list job) : list job :=
+  filter (fun j => match j_owner j with OwnThis => true | _ => false end && negb (finished (j_phase j))) jobs.
+
+(* job-lister lag (handler 164 / 266 read the informer, not the API server):
+   the run of 100 s is started and recorded; a reconcile whose job lister does
+   not show that job yet drops the reference as stale and writes the status;
+   at 200 s nothing blocks: a second run starts next to the first, under Forbid,
+   with every status write successful *)
+Theorem cron_forbid_lister_lag_refuted :
+  exists (s : cstate) (ops : list op2),
+    state_ok s /\ c_policy (s_spec s) = Forbid /\
+    let '(s', outs) := run2 next_pairs false 10 s ops in
+    created_times outs = [100 * sec; 200 * sec] /\
+    length (live_owned (s_jobs s')) = 2%nat /\ Forall (fun o => o_err o <> E_FUEL) outs.
+Proof.
+  exists (mkState (mkSpec (- sec) false Forbid None None None true) (mkStatus None [] None) [] 1).
+  exists [Fresh (OpReconcile (100 * sec + 5) false);
+          Lagged None [] true (100 * sec + 6) false;
+          Fresh (OpReconcile (200 * sec + 5) false)].
+  split; [split; constructor|]. split; [reflexivity|].
+  vm_compute. split; [reflexivity|]. split; [reflexivity|]. repeat constructor; discriminate.
+Qed.
+
+(* lost status write: the run of 100 s is started but never recorded; at 200 s
+   a second run starts next to it, under Forbid *)
+Theorem cron_forbid_lost_write_refuted :
+  exists (s : cstate) (ops : list op2),
+    state_ok s /\ c_policy (s_spec s) = Forbid /\
+    let '(s', outs) := run2 next_pairs false 10 s ops in
+    created_times outs = [100 * sec; 200 * sec] /\
+    length (live_owned (s_jobs s')) = 2%nat /\ Forall (fun o => o_err o <> E_FUEL) outs.
+Proof.
+  exists (mkState (mkSpec (- sec) false Forbid None None None true) (mkStatus None [] None) [] 1).
+  exists [LostWrite (100 * sec + 5) false; Fresh (OpReconcile (200 * sec + 5) false)].
+  split; [split; constructor|]. split; [reflexivity|].
+  vm_compute. split; [reflexivity|]. split; [reflexivity|]. repeat constructor; discriminate.
+Qed.
+
+(* the time a reconcile starts IS the latest schedule point (clause 3 lifted
+   from nextScheduleTime to the reconcile) *)
+Theorem cron_reconcile_starts_latest : forall (next : Z -> Z) (lenient : bool) (hi : Z),
+  (forall t, t <= hi -> t < next t) ->
+  (forall t s, t <= hi -> sched next hi s -> t < s -> next t <= s) ->
+  (forall t, t <= hi -> exists k, next t = k * sec) ->
+  forall fuel s now fc s' o t,
+  reconcile next lenient fuel s now fc = (s', o) -> state_ok s -> bounded hi s -> now <= hi ->
+  starts o t ->
+  sched next hi t /\ (forall p, sched next hi p -> t < p -> now < p) /\
+  earliest_time (c_created (s_spec s)) (st_last (s_status s)) (c_deadline (s_spec s)) now true < t /\ t <= now.
+Proof.
+  intros next lenient hi G L S fuel s now fc s' o t. unfold reconcile.
+  destruct (cleanup (s_spec s) (s_status s) (s_jobs s)) as [[[st1 jobs1] hd] upd1] eqn:EC.
+  destruct (decide next lenient fuel (s_spec s) st1 jobs1 (s_next_uid s) now fc upd1 hd)
+    as [[[st2 jobs2] uid2] o2] eqn:ED.
+  intros E Hok (Bc & Bl & Bd) Hnow Hs; inversion E; subst; clear E.
+  apply cleanup_spec in EC. destruct EC as (C1 & C2 & C3 & C4).
+  assert (Hok1 : uid_ok (s_next_uid s) (st_active st1) jobs1) by (eapply uid_ok_incl; eauto).
+  apply decide_spec in ED; auto. destruct ED as (_ & _ & _ & _ & Dc).
+  destruct Dc as [[Hc _]|(t' & Hs' & Ht & _)].
+  - unfold starts in Hs. rewrite Hc in Hs. discriminate.
+  - unfold starts in Hs, Hs'. rewrite Hs in Hs'. inversion Hs'; subst t'. rewrite C1 in Ht.
+    apply (cron_choice_sound next hi G L S) in Ht; auto.
+    + cbv zeta in Ht. tauto.
+    + apply (earliest_le_hi hi); auto.
+Qed.
+
+(* non-vacuity of the instantiated theorems *)
+Definition ex_tbl : list Z := [100 * sec; 200 * sec; 300 * sec; 400 * sec].
+
+Example table_nonvacuous :
+  tbl_ok ex_tbl /\ (exists p, In p ex_tbl /\ 250 * sec < p) /\
+  bounded (250 * sec) ex_state /\ inv_live ex_state /\
+  Forall (op_ok (250 * sec)) [OpReconcile (100 * sec) false; OpReconcile (200 * sec + 5) false] /\
+  let '(_, outs) := run (next_tbl ex_tbl) false (S (S (S (length ex_tbl)))) ex_state
+                        [OpReconcile (100 * sec) false; OpReconcile (200 * sec + 5) false] in
+  created_times outs = [100 * sec].
+Proof.
+  split; [split; [reflexivity|repeat constructor; eexists; reflexivity]|].
+  split; [exists (300 * sec); split; [cbn; tauto|reflexivity]|].
+  split; [split; [discriminate|split; intros ? H; discriminate H]|].
+  split.
+  { split; [split; repeat constructor|]. split.
+    - intros a b [<-|[<-|[]]] [<-|[<-|[]]] H; try reflexivity; discriminate H.
+    - intros j [<-|[<-|[]]] [_ H]; discriminate H. }
+  split; [repeat constructor; discriminate|].
+  vm_compute. reflexivity.
+Qed.
+
+(* a constant-period schedule meeting the hypotheses of the completeness theorem on a window *)
+Example regular_nonvacuous :
+  (forall t s, t <= 250 * sec -> sched (next_tbl ex_tbl) (250 * sec) s -> t < s -> next_tbl ex_tbl t <= s) /\
+  (forall s, s <= 250 * sec -> sched (next_tbl ex_tbl) (250 * sec) s -> next_tbl ex_tbl s = s + 100 * sec) /\
+  exists t, next_schedule_time (next_tbl ex_tbl) 2 0 None None (250 * sec) = NsOk (Some t).
+Proof.
+  assert (Hok : tbl_ok ex_tbl) by (split; [reflexivity|repeat constructor; eexists; reflexivity]).
+  assert (Hex : exists p, In p ex_tbl /\ 250 * sec < p) by (exists (300 * sec); split; [cbn; tauto|reflexivity]).
+  destruct (next_tbl_window ex_tbl (250 * sec) Hok Hex) as (_ & L & _).
+  split; [exact L|]. split.
+  - intros s Hs (u & Hu & <-). unfold ex_tbl in *. cbn [next_tbl] in *.
+    repeat match goal with |- context [?a <? ?b] => destruct (Z.ltb_spec a b) end;
+      repeat match goal with H : context [?a <? ?b] |- _ => destruct (Z.ltb_spec a b) end;
+      unfold sec, zero_time in *; lia.
+  - eexists. vm_compute. reflexivity.
+Qed.
